@@ -8,7 +8,7 @@
     for the translated predicates when the branches are merged ([law_triage_sound] under
     H-TRIAGE-DET, [law_tangent_sound] is H-TANGENT). *)
 From Coq Require Import ZArith List Bool.
-From Geo Require Import Model.Crosser Proofs.C03_Crosser Proofs.C03_Vertex.
+From Geo Require Import Model.Crosser Proofs.C03_Crosser Proofs.C03_Vertex Proofs.C03_Extra.
 Import ListNotations.
 Local Open Scope Z_scope.
 
@@ -171,3 +171,39 @@ Proof.
          | exact (acv_flip point peq sign refdir H2 H3 H4 H5 a b c)].
 Qed.
 Print Assumptions angle_contains_vertex_laws.
+
+(** A two-argument call whose first vertex is == to the cached one does not restart; the cached
+    vertex (possibly other +-0 bits) then answers exactly like the argument.  With
+    [crosser_refines_spec] / [crosser_equals_stateless]: every call answers like the stateless
+    function on the four points the caller passed. *)
+Theorem crosser_argument_vertex : forall point peq sign refdir,
+  law_peq_sym point peq -> law_peq_trans point peq -> law_sign_rotate point sign ->
+  law_sign_peq point peq sign ->
+  forall a b p c d,
+    crossing_spec point peq sign a b (eff point peq p c) d = crossing_spec point peq sign a b c d /\
+    eov_spec point peq sign refdir a b (eff point peq p c) d = eov_spec point peq sign refdir a b c d.
+Proof. exact eff_irrelevant. Qed.
+Print Assumptions crosser_argument_vertex.
+
+(** AngleContainsVertex property (3): for vertices v_1 .. v_k (k >= 2) listed in CCW order around
+    o, AngleContainsVertex(v_{i+1}, o, v_i) is true for exactly one i (cyclically): of the
+    polygons tiling the neighbourhood of a vertex exactly one contains it. *)
+Theorem angle_contains_vertex_exactly_one : forall point peq sign refdir,
+  law_peq_sym point peq -> law_sign_swap point sign -> law_sign_range point sign ->
+  law_sign_zero_iff point peq sign -> law_occw_split point peq sign ->
+  forall o u v l, ccw_listed point peq sign o (u :: v :: l) ->
+    open_count point sign refdir o (u :: v :: l) + wedge point sign refdir o (last l v) u = 1.
+Proof. exact acv_exactly_one_wedge. Qed.
+Print Assumptions angle_contains_vertex_exactly_one.
+
+(** The interface laws are jointly satisfiable (a concrete non-trivial instance). *)
+Theorem interface_laws_satisfiable :
+  let point := Instance.point in let peq := Instance.peq in let sign := Instance.sign in
+  let triage := Instance.triage in let tangent := Instance.tangent in
+    law_peq_refl point peq /\ law_peq_sym point peq /\ law_peq_trans point peq /\
+    law_sign_rotate point sign /\ law_sign_swap point sign /\ law_sign_range point sign /\
+    law_sign_zero_iff point peq sign /\ law_sign_peq point peq sign /\
+    law_triage_sound point sign triage /\ law_tangent_sound point peq sign tangent /\
+    crossing_spec point peq sign 0 2 1 3 = Cross /\ crossing_spec point peq sign 0 1 2 3 = DoNotCross.
+Proof. exact laws_satisfiable. Qed.
+Print Assumptions interface_laws_satisfiable.
